@@ -318,8 +318,19 @@ impl<H: DnsHandle> DnssecDnsHandle<H> {
                 Proof::Bogus
             }
             (false, false, false) => {
-                // Return Ok if there were no NSEC/NSEC3 records and no wildcard RRSIGs.
-                if !message.answers.is_empty() {
+                // Return Ok if there were no NSEC/NSEC3 records and no wildcard RRSIGs, provided
+                // the answer section has something to say about the query name. A response whose
+                // answer section holds unrelated records only is a negative response as far as
+                // the caller is concerned, and it must not escape the checks for those.
+                if message.answers.iter().any(|record| {
+                    record.name == query.name
+                        && (query.query_type.is_any()
+                            || record.record_type() == query.query_type
+                            || record.record_type() == RecordType::CNAME
+                            || matches!(&record.data, RData::DNSSEC(DNSSECRData::RRSIG(rrsig))
+                                if rrsig.input().type_covered == query.query_type
+                                    || rrsig.input().type_covered == RecordType::CNAME))
+                }) {
                     return Ok(message);
                 }
 
